@@ -217,7 +217,7 @@ def exec_place(item):
     for rid, ln, sol in sorted(got):
         s = mdl.get(ln)
         if s is not None and suppressed(s, rid) and not r.violations:
-            r.violations.append({"key": ("placement", "tagged_rule_reported_on_tagged_line", item["shape"]), "detail": {"violation": [rid, ln, sol], "tags": tags}, "item": strip})
+            r.violations.append({"key": ("placement", "tagged_rule_reported_on_tagged_line", item["shape"], rid), "detail": {"violation": [rid, ln, sol], "tags": tags}, "item": strip})
     missing = sorted(exp - got)
     extra = sorted(got - exp - open_)
     # violations that only exist because the comment is a tag (e.g. comment rules on the tag line itself) are about the tag line: not constrained
